@@ -14,8 +14,9 @@ TECHNIQUE = 'exhaustive decision-table monitor: real Enforcer.enforce (scope gat
 RULE = ('rows = 16 scope-type declarations (none + every non-empty ordered subset of system/domain/project) x '
         '12 credential combinations (system absent / `system` / `system_scope` x domain_id x project_id) x enforce_scope '
         'x do_raise x check allows/denies/depends on a role x rule overridden in the policy file or not x rule by name / check object x '
-        '3 credential representations (dict, RequestContext, to_policy_values mapping; the `system` spelling exists only '
-        'for dicts) x role content irrelevant to the check. Non-trivial = scope types declared; distinct = distinct row.')
+        '4 credential representations (dict, RequestContext, to_policy_values mapping, that mapping with the `system` '
+        'spelling added on top; the `system` spelling exists only for dicts and the last form); four more blocks flip '
+        'enforce_scope on a LIVING enforcer (on->off->on, off->on->off, ...) and re-run the table after each flip x role content irrelevant to the check. Non-trivial = scope types declared; distinct = distinct row.')
 ASSUMPTIONS = ['oslo.context RequestContext.to_policy_values is the conversion the statement means',
                'the check decision is made independent of roles by using @ / ! (registered default) and the opposite '
                'constant as file override, so that a gate reading the wrong rule is visible']
@@ -23,7 +24,7 @@ LEVEL_TEXT = ('The statement quantifies over a finite product; all of it (about 
               'enforcer - complete for the stated table.')
 LEVEL_NOTE = 'trusted: the reference function (token scope derivation + membership) transcribed from the statement'
 PLAN = {'quick': dict(shards=4, wall=90), 'thorough': dict(shards=8, wall=300)}
-MIN = {'evaluations': 5000, 'gate_denied_rows': 500, 'allow_decisions': 500}
+MIN = {'option_flips_on_living_enforcer': 2, 'evaluations': 5000, 'gate_denied_rows': 500, 'allow_decisions': 500}
 ANCHORS = ['oslo_policy.policy:Enforcer._enforce_scope', 'oslo_policy.policy:Enforcer.enforce',
            'oslo_policy.policy:Enforcer._map_context_attributes_into_creds']
 REQUIRED_ANCHORS = ['oslo_policy.policy:Enforcer.enforce']
@@ -63,14 +64,24 @@ def make_creds(rep, sysmode, dom, proj, roles):
         if proj:
             creds['project_id'] = 'p'
         return creds
+    if rep == 'pv+system':
+        # the mapping of a context without system scope (it carries system_scope: None), with the older `system`
+        # spelling added on top by the service
+        c = context.RequestContext(system_scope=None, domain_id='d' if dom else None, project_id='p' if proj else None,
+                                   roles=list(roles))
+        m = dict(c.to_policy_values())
+        if sysmode != 'none':
+            m['system'] = 'all'
+        return m
     c = context.RequestContext(system_scope='all' if sysmode != 'none' else None,
                                domain_id='d' if dom else None, project_id='p' if proj else None,
                                roles=list(roles))
     return c if rep == 'ctx' else c.to_policy_values()
 
 
-def check_block(ctx, enforce_scope, override):
-    """One enforcer (one enforce_scope / override setting), all rows on it."""
+def check_block(ctx, enforce_scope, override, flips=()):
+    """One enforcer, all rows on it.  `flips`: further values of enforce_scope applied afterwards TO THE SAME enforcer
+    (the option is read from configuration on every call, so a long-lived enforcer must follow it)."""
     from oslo_policy import policy, _checks
 
     class ScopedCheck(_checks.BaseCheck):
@@ -104,57 +115,66 @@ def check_block(ctx, enforce_scope, override):
                     filerules[nm] = text
                 names[nm] = (st, res)
         tree.write(os.path.basename(tree.main), filerules, 'json')
-        for nm, (st, res) in names.items():
-            for sysmode, dom, proj in itertools.product(['none', 'system', 'system_scope'], [0, 1], [0, 1]):
-                for rep in ('dict', 'ctx', 'pv'):
-                    if rep != 'dict' and sysmode == 'system':
-                        continue
-                    for byobj in (False, True):
-                        for do_raise in (False, True):
-                            for roles in ROLESETS:
-                                row = dict(scope_types=st, check_allows=res, system=sysmode, domain=dom, project=proj,
-                                           rep=rep, by_object=byobj, do_raise=do_raise, enforce_scope=enforce_scope,
-                                           override=override, roles=roles)
-                                want = reference(st, check_value(res, roles), sysmode, dom, proj, enforce_scope, do_raise)
-                                creds = make_creds(rep, sysmode, dom, proj, roles)
-                                rule = ScopedCheck(res, st) if byobj else nm
-                                try:
-                                    got = enf.enforce(rule, {}, creds, do_raise=do_raise)
-                                    got = True if got is True else False if got is False else repr(got)
-                                except Exception as e:
-                                    got = type(e).__name__
-                                ctx.case(row, nontrivial=bool(st))
-                                gate = bool(st) and enforce_scope and token_scope(sysmode, dom, proj) not in st
-                                if gate:
-                                    ctx.count('gate_denied_rows')
-                                ctx.count('allow_decisions' if got is True else 'other_decisions')
-                                ctx.observe('outcomes', str(got))
-                                if got != want:
-                                    if gate:
-                                        key = 'scope-mismatch-not-denied'
-                                    elif want in (True, False, 'PolicyNotAuthorized') and got in ('InvalidScope',):
-                                        key = 'scope-gate-fires-without-mismatch'
-                                    else:
-                                        key = 'decision-differs-from-check'
-                                    ctx.violation(key, dict(enforce_scope=enforce_scope, override=override),
-                                                  {'row': row, 'expected': want, 'observed': got})
+        passes = [enforce_scope] + list(flips)
+        for pass_no, enforce_scope in enumerate(passes):
+          if pass_no:
+              conf.set_override('enforce_scope', enforce_scope, group='oslo_policy')
+              ctx.count('option_flips_on_living_enforcer')
+          for nm, (st, res) in names.items():
+              for sysmode, dom, proj in itertools.product(['none', 'system', 'system_scope'], [0, 1], [0, 1]):
+                  for rep in ('dict', 'ctx', 'pv', 'pv+system'):
+                      if rep in ('ctx', 'pv') and sysmode == 'system':
+                          continue
+                      if rep == 'pv+system' and sysmode == 'system_scope':
+                          continue
+                      for byobj in (False, True):
+                          for do_raise in (False, True):
+                              for roles in ROLESETS:
+                                  row = dict(scope_types=st, check_allows=res, system=sysmode, domain=dom, project=proj,
+                                             rep=rep, by_object=byobj, do_raise=do_raise, enforce_scope=enforce_scope,
+                                             override=override, roles=roles)
+                                  want = reference(st, check_value(res, roles), sysmode, dom, proj, enforce_scope, do_raise)
+                                  creds = make_creds(rep, sysmode, dom, proj, roles)
+                                  rule = ScopedCheck(res, st) if byobj else nm
+                                  try:
+                                      got = enf.enforce(rule, {}, creds, do_raise=do_raise)
+                                      got = True if got is True else False if got is False else repr(got)
+                                  except Exception as e:
+                                      got = type(e).__name__
+                                  ctx.case(row, nontrivial=bool(st))
+                                  gate = bool(st) and enforce_scope and token_scope(sysmode, dom, proj) not in st
+                                  if gate:
+                                      ctx.count('gate_denied_rows')
+                                  ctx.count('allow_decisions' if got is True else 'other_decisions')
+                                  ctx.observe('outcomes', str(got))
+                                  if got != want:
+                                      if gate:
+                                          key = 'scope-mismatch-not-denied'
+                                      elif want in (True, False, 'PolicyNotAuthorized') and got in ('InvalidScope',):
+                                          key = 'scope-gate-fires-without-mismatch'
+                                      else:
+                                          key = 'decision-differs-from-check'
+                                      ctx.violation(key, dict(enforce_scope=passes[0], override=override, flips=list(passes[1:])),
+                                                    {'row': row, 'expected': want, 'observed': got})
         ctx.sample(row)
     finally:
         tree.cleanup()
 
 
 def run(ctx):
-    blocks = list(itertools.product((True, False), (False, True)))
+    blocks = [(es, ov, ()) for es, ov in itertools.product((True, False), (False, True))]
+    # the option flipped on a living enforcer, both directions and back again
+    blocks += [(True, False, (False, True)), (False, True, (True, False)), (False, False, (True,)), (True, True, (False,))]
     done = True
-    for i, (es, ov) in enumerate(blocks):
+    for i, (es, ov, flips) in enumerate(blocks):
         if not ctx.mine(i):
             continue
         if ctx.expired():
             done = False
             break
-        check_block(ctx, es, ov)
+        check_block(ctx, es, ov, flips)
     ctx.stratum('table', exhaustive=done)
 
 
 def replay(ctx, case):
-    check_block(ctx, case['enforce_scope'], case['override'])
+    check_block(ctx, case['enforce_scope'], case['override'], tuple(case.get('flips', ())))
